@@ -13,21 +13,25 @@
 (* step.  The channel occupancy is only judged in single-threaded        *)
 (* scenarios: with concurrent poppers a receive (outside the mutex) may    *)
 (* legitimately empty the channel before the hook reads it; there the      *)
+(* Pop-side clause is judged only when the scenario has a single popper   *)
+(* (nobody else can receive while it is inside Pop), and the              *)
 (* wake-up clause is judged by the End event.  After a mismatch it re-synchronises on the logged queue so the   *)
 (* rest of the scenario is still examined.                                 *)
 (***************************************************************************)
 EXTENDS TraceLib, AlertQueue
 
-VARIABLES l, queue, cap, maxb, seq   \* seq: the scenario is single-threaded (TLC op sequence)
-tvars == <<l, queue, cap, maxb, seq>>
+VARIABLES l, queue, cap, maxb, seq,   \* seq: the scenario is single-threaded (TLC op sequence)
+          one                        \* one: exactly one popper goroutine exists in the scenario
+tvars == <<l, queue, cap, maxb, seq, one>>
 
-TraceInit == l = 1 /\ queue = <<>> /\ cap = 0 /\ maxb = 0 /\ seq = FALSE
+TraceInit == l = 1 /\ queue = <<>> /\ cap = 0 /\ maxb = 0 /\ seq = FALSE /\ one = FALSE
 
 IsEvent(n) == l <= TraceLen /\ Trace[l].ev = n /\ l' = l + 1
 
 Header == /\ IsEvent("case")
           /\ queue' = <<>> /\ cap' = Trace[l].in.cap /\ maxb' = Trace[l].in.maxbatch
           /\ seq' = Has(Trace[l].in, "ops")
+          /\ one' = (Has(Trace[l].in, "ops") \/ Get(Trace[l].in, "single_popper", FALSE))
 
 PushClauses(e) ==
     (IF e.queue = AfterPush(queue, e.batch, cap) THEN {} ELSE {"push-keeps-order-drops-oldest"})
@@ -35,22 +39,26 @@ PushClauses(e) ==
     \cup (IF seq /\ e.queue # <<>> /\ e.morec = 0 THEN {"push-signals-waiting-sender"} ELSE {})
 Push == /\ IsEvent("Push")
         /\ CaseReject(l, Trace[l], PushClauses(Trace[l]))
-        /\ queue' = Trace[l].queue /\ UNCHANGED <<cap, maxb, seq>>
+        /\ queue' = Trace[l].queue /\ UNCHANGED <<cap, maxb, seq, one>>
 
 PopClauses(e) ==
     (IF e.popped = PopBatch(queue, maxb) THEN {} ELSE {"pop-returns-oldest-first"})
     \cup (IF Len(e.popped) <= maxb THEN {} ELSE {"batch-at-most-max"})
     \cup (IF e.queue = AfterPop(queue, maxb) THEN {} ELSE {"pop-leaves-the-rest"})
-    \cup (IF seq /\ e.queue # <<>> /\ e.morec = 0 THEN {"pop-resignals-when-alerts-remain"} ELSE {})
+    \cup (IF one /\ e.queue # <<>> /\ e.morec = 0 THEN {"pop-resignals-when-alerts-remain"} ELSE {})
 Pop == /\ IsEvent("Pop")
        /\ CaseReject(l, Trace[l], PopClauses(Trace[l]))
-       /\ queue' = Trace[l].queue /\ UNCHANGED <<cap, maxb, seq>>
+       /\ queue' = Trace[l].queue /\ UNCHANGED <<cap, maxb, seq, one>>
+
+(* Sync: a sampled trace skipped steps; resynchronise on the recorded queue contents.  *)
+Sync == /\ IsEvent("Sync")
+        /\ queue' = Trace[l].queue /\ UNCHANGED <<cap, maxb, seq, one>>
 
 End == /\ IsEvent("End")
        /\ CaseReject(l, Trace[l], IF Trace[l].stall /\ Trace[l].len > 0 THEN {"waiting-sender-woken-while-alerts-queued"} ELSE {})
-       /\ UNCHANGED <<queue, cap, maxb, seq>>
+       /\ UNCHANGED <<queue, cap, maxb, seq, one>>
 
-TraceNext == Header \/ Push \/ Pop \/ End
+TraceNext == Header \/ Push \/ Pop \/ Sync \/ End
 TraceSpec == TraceInit /\ [][TraceNext]_tvars
 TraceAccepted == TLCGet("stats").diameter = TraceLen + 1
 =============================================================================
